@@ -154,6 +154,23 @@ func c01Templates() []sim.Template {
 	for i := 0; i < 3; i++ { // weight
 		t = append(t, own)
 	}
+	// a finished recovery is not a login credential for the second step (unless recovery is configured to log in)
+	t = append(t, sim.Template{Name: "recovery-then-second-factor", F: func(s *sim.Sim) []*sim.Action {
+		if !s.Cfg.Has("recover") || len(s.Cfg.TwoFA) == 0 {
+			return nil
+		}
+		kind := s.Cfg.TwoFA[s.R.Intn(len(s.Cfg.TwoFA))]
+		v := findAcct(s, func(u *world.User) bool {
+			return u.Confirmed && ((kind == "totp" && u.TOTPSecretKey != "") || (kind == "sms" && u.SMSPhone != "" && u.TOTPSecretKey == ""))
+		})
+		if v < 0 {
+			return nil
+		}
+		b := s.R.Intn(len(s.Br))
+		e := act("recover_end", b, v, "current")
+		e.Cls2 = "fresh"
+		return []*sim.Action{act("recover_start", b, v, ""), e, act(kind+"_validate", b, -9, "ok"), act(kind+"_validate", b, -9, "recovery"), act("visit", b, -9, "", "route", "/protected/bare")}
+	}})
 	return t
 }
 
